@@ -166,6 +166,17 @@ def generated_document(rng):
         tag = rng.choice(("text:p", "text:p", "text:h"))
         attr = ' text:outline-level="1"' if tag == "text:h" else ""
         body.append(Element.from_tag(f"<{tag}{attr}>{a}{b}{c}</{tag}>"))
+    # tables with trailing empty rows / cells and repeated runs (what exporters are tempted to strip)
+    from . import tablelib as tl
+    from .table_driver import rand_state
+
+    for i in range(rng.randint(1, 3)):
+        st = rand_state(rng, 4, 4)
+        st["rows"] = [r + [0] * rng.randint(0, 3) for r in st["rows"]] + [[0, 0]] * rng.randint(0, 3)
+        w = max([len(r) for r in st["rows"]], default=0)
+        st["cols"] = [0] * (w + rng.randint(0, 2))
+        if st["rows"]:
+            body.append(Element.from_tag(tl.table_xml(st, "max", rng, name=f"GT{i}")))
     return doc
 
 
